@@ -8,6 +8,8 @@ ids = [json.loads(l)["id"] for l in open(os.path.join(ROOT, "properties.jsonl"))
 checks, na = [], []
 for pid in ids:
     cfg = props.PROPS.get(pid)
+    if pid in getattr(props, 'HOLD', {}):
+        na.append(dict(property_id=pid, reason=props.HOLD[pid])); continue
     if cfg is None or cfg.get("disabled"):
         na.append(dict(property_id=pid, reason=props.NOT_CLAIMED.get(pid, "check not built yet (model and proofs in progress); not claimed")))
         continue
